@@ -21,7 +21,7 @@ SCALES = [None, 1, 0.5, 1e-3, 0.37, 0, -0.1, 1.5, float("nan"), float("inf")]
 RULE = ("one case per (generated table, option combination); non-trivial = table has >= 2 lines with different branching fractions; distinct by hash of (text, options)")
 ANCHORS = ["decaylanguage.dec.dec:DecFileParser.print_decay_modes", "decaylanguage.dec.dec:DecFileParser._decay_mode_details"]
 WORKERS = {"quick": 4, "thorough": 16}
-REQUIRED = {"ascending": 50, "ascending+scale": 20, "descending+scale": 20, "normalize": 50, "ties": 30, "lines>=5": 50, "lines>=8": 20, "refused:normalize+scale": 10,
+REQUIRED = {"printed-again-after:abandoned": 20, "printed-again-after:stream-fails": 20, "ascending": 50, "ascending+scale": 20, "descending+scale": 20, "normalize": 50, "ties": 30, "lines>=5": 50, "lines>=8": 20, "refused:normalize+scale": 10,
             "refused:scale-out-of-range": 20, "refused:scale-nan": 5, "all-values-below-1e-9": 10, "near-tie-beyond-7-digits": 20, "reparsed-off-and-on-between-prints": 20, "first-parsed-without-conjugates-then-with": 10, "pdg-name-mother": 10, "print_model=False": 50, "photos-keyword-hidden": 30, "photos-keyword-shown": 30,
             "option-combinations-all": 1, "conjugated-table-printed": 20, "defined-parameter-in-row": 20, "same-table-other-define-value": 10, "span>=1e6": 20, "stored-values-unchanged": 200}
 EXHAUSTIVE_NOTE = "all 2x2x2x(normalize|8 scales) option combinations are used on every 8th table (quick) / every table (thorough)"
